@@ -21,16 +21,28 @@ def pt(P):
     return None if isinstance(P, Rejected) or P is None or P.x is None else (P.x.num, P.y.num)
 
 
-def musig_scenario(res, pecc, taproot, c, toy, secrets, nonces, msg, root, vc, tag, faults=True):
-    """One complete MuSig run through the library API. secrets: list of ints; nonces: list of (k1, k2)."""
+def musig_scenario(res, pecc, taproot, c, toy, secrets, nonces, msg, root, vc, tag, faults=True, shared=None):
+    """One complete MuSig run through the library API. secrets: list of ints; nonces: list of (k1, k2).
+    shared: dict kept by the caller across scenarios of one key set, so that ONE MuSigTapScript object (and one set
+    of key objects) serves plain and tweaked sessions in turn — state kept on the object between sessions is exposed."""
     n = c.n
-    privs = [pecc.PrivateKey(d) for d in secrets]
+    if shared is not None and "privs" in shared:
+        privs = shared["privs"]
+    else:
+        privs = [pecc.PrivateKey(d) for d in secrets]
+        if shared is not None:
+            shared["privs"] = privs
     points = [p.point for p in privs]
     xs = [c.mulg(d)[0] for d in secrets]
     if len(set(xs)) != len(xs):
         res.skip("two participants share an x-only key (d and n-d): not a set of distinct keys")
         return
-    musig = attempt(taproot.MuSigTapScript, points)
+    if shared is not None and "musig" in shared:
+        musig = shared["musig"]
+    else:
+        musig = attempt(taproot.MuSigTapScript, points)
+        if shared is not None and not isinstance(musig, Rejected):
+            shared["musig"] = musig
     if isinstance(musig, Rejected):
         res.violation(f"C13/{tag}/construct", vc, repr(musig), "MuSigTapScript", "cannot aggregate distinct keys")
         return
@@ -85,7 +97,14 @@ def musig_scenario(res, pecc, taproot, c, toy, secrets, nonces, msg, root, vc, t
         return
     sig = attempt(run)
     if isinstance(sig, Rejected):
-        res.violation(f"C13/{tag}/honest-fails", vc, repr(sig), "valid signature", "sum of all partial signatures is refused by get_signature")
+        cls = "honest-fails"
+        if shared is not None:
+            # does a fresh object succeed? then the failure is state left by an earlier session on the shared object
+            fresh_res = Res()
+            musig_scenario(fresh_res, pecc, taproot, c, toy, secrets, nonces, msg, root, vc, tag, faults=False, shared=None)
+            if not fresh_res.n_violations:
+                cls = "honest-fails-on-reused-object"
+        res.violation(f"C13/{tag}/{cls}", vc, repr(sig), "valid signature", "sum of all partial signatures is refused by get_signature" + (" on a MuSigTapScript object that served another session (other merkle root) before" if cls != "honest-fails" else ""))
         return
     if not c.schnorr_verify(pk, msg, sig):
         res.violation(f"C13/{tag}/invalid-aggregate", vc, sig, "BIP340-valid under " + pk.hex(), "aggregate signature is not valid under the reference BIP340 verifier")
@@ -149,12 +168,13 @@ def run_toy_musig(case):
     vc = {"engine": f"toy-musig-{toy[0]}", "toy": list(toy), "case": case}
     n = c.n
     per = TOY_NONCE_SET[:2]
+    shared = {}
     for nonces in itertools.product(per, repeat=len(secrets)):
         # distinct participants use distinct nonce pairs shifted by their index
         nn = [((k1 + 5 * i) % n or 1, (k2 + 11 * i) % n or 1) for i, (k1, k2) in enumerate(nonces)]
         for msg in (b"\x00" * 32, b"\x07" * 32):
-            for root in (b"", b"\xaa" * 32):
-                musig_scenario(res, pecc, taproot, c, toy, secrets, nn, msg, root, vc, f"toy-musig")
+            for root in (b"", b"\xaa" * 32, b"\xbb" * 32):
+                musig_scenario(res, pecc, taproot, c, toy, secrets, nn, msg, root, dict(vc, case=dict(case, at=[list(map(list, nn)), msg.hex(), root.hex()])), f"toy-musig", shared=shared)
     return res
 
 
@@ -166,8 +186,7 @@ def gen_real_musig(tier, seed):
         reps = 4 if tier == "quick" else 6
         for rep in range(reps):
             secrets = [filler_int(seed, f"c13-{sz}-{rep}", i, 1, N - 1) for i in range(sz)]
-            for root in ("", "bb" * 32):
-                cases.append({"secrets": [str(s) for s in secrets], "rep": rep, "root": root})
+            cases.append({"secrets": [str(s) for s in secrets], "rep": rep, "roots": ["", "bb" * 32, "cc" * 32, ""]})
     return cases
 
 
@@ -179,8 +198,10 @@ def run_real_musig(case):
     secrets = [int(s) for s in case["secrets"]]
     nonces = [(filler_int(case["rep"], "c13k1", i, 1, N - 1), filler_int(case["rep"], "c13k2", i, 1, N - 1)) for i in range(len(secrets))]
     msg = filler(case["rep"], "c13msg", len(secrets))
-    vc = {"engine": "real-musig", "case": case}
-    musig_scenario(res, pecc, taproot, c, None, secrets, nonces, msg, bytes.fromhex(case["root"]), vc, "real-musig", faults=len(secrets) <= 3)
+    shared = {}
+    for j, root in enumerate(case["roots"]):
+        vc = {"engine": "real-musig", "case": dict(case, roots=case["roots"][: j + 1])}
+        musig_scenario(res, pecc, taproot, c, None, secrets, nonces, msg, bytes.fromhex(root), vc, "real-musig", faults=len(secrets) <= 3 and j < 2, shared=shared)
     pars = tuple(c.mulg(d)[1] & 1 for d in secrets)
     res.ok(f"member parities {pars}")
     return res
@@ -328,9 +349,9 @@ def engines(tier, seed):
     toys = [(43, 31)] if tier == "quick" else [(43, 31), (79, 67)]
     es = []
     for toy in toys:
-        es.append(Engine(f"toy-musig-{toy[0]}", gen_toy_musig(toy), run_toy_musig, toy=toy, kind="E3", rule=f"toy curve p={toy[0]} n={toy[1]}: every pair of secrets and every 8th triple (thorough: every triple) x nonce-pair products x 2 messages x (no root | root): honest aggregate must be valid under the reference BIP340 verifier for the (reference-tweaked) aggregate key; all permutations same key; every single omission / alteration accepted only if the reference accepts; pairs sharing an x-only key skipped"))
+        es.append(Engine(f"toy-musig-{toy[0]}", gen_toy_musig(toy), run_toy_musig, toy=toy, kind="E3", rule=f"toy curve p={toy[0]} n={toy[1]}: every pair of secrets and every 8th triple (thorough: every triple) x nonce-pair products x 2 messages x (no root | root A | root B), all sessions of a key set on ONE MuSigTapScript object: honest aggregate must be valid under the reference BIP340 verifier for the (reference-tweaked) aggregate key; all permutations same key; every single omission / alteration accepted only if the reference accepts; pairs sharing an x-only key skipped"))
     es += [
-        Engine("real-musig", gen_real_musig, run_real_musig, kind="E1", rule="secp256k1: key sets of size 2..3 (thorough ..5) x (no root | root), explicit nonces: same oracle as toy-musig; omission/alteration of each partial signature for sizes <= 3"),
+        Engine("real-musig", gen_real_musig, run_real_musig, kind="E1", rule="secp256k1: key sets of size 2..3 (thorough ..5), sessions (no root, root A, root B, no root) in turn on ONE MuSigTapScript object, explicit nonces: same oracle as toy-musig; omission/alteration of each partial signature for sizes <= 3"),
         Engine("real-trees", gen_real_trees, run_real_trees, kind="E1", rule="every (k, n) with 2 <= n <= 4 (thorough 5), multi_leaf_tree for k >= 1 and musig_tree for k >= 2, every leaf: leaves <-> k-subsets bijection; spend by the owning subset verifies under Tx.verify_input and under the reference consensus verifier (script path, control block, CHECKSIG/CHECKSIGADD, BIP341/342 digest); spend by every other k-subset is rejected"),
     ]
     return es
